@@ -1,13 +1,13 @@
 #!/bin/bash
 # Runs the repository's test suite (guard off — there are no source hooks) and compares with BASELINE.json's stable_pass list.
 export GOFLAGS=-mod=mod GOPROXY=off GOSUMDB=off GOTOOLCHAIN=local
-cd ${1:-/repo} && go test -mod=mod -json -vet=off -count=1 -timeout 25m ./... 2>/dev/null > /tmp/verif-baseline.json
+cd ${1:-/repo} && go test -mod=mod -json -vet=off -count=1 -timeout 25m ./... 2>/dev/null > /tmp/verif-baseline-$$.json
 python3 - <<'PY'
 import json
 base=json.load(open('/root/.vp/BASELINE.json'))
 want=set(base['stable_pass'])
 got=set()
-for l in open('/tmp/verif-baseline.json'):
+for l in open("/tmp/verif-baseline-%s.json" % __import__("os").getppid()):
     try: e=json.loads(l)
     except: continue
     if e.get('Action')=='pass' and e.get('Test'):
@@ -16,4 +16,4 @@ missing=sorted(want-got)
 print('baseline stable_pass:',len(want),'passing now:',len(want&got),'missing:',len(missing))
 for m in missing[:20]: print('  MISSING',m)
 PY
-rm -f /tmp/verif-baseline.json
+rm -f /tmp/verif-baseline-$$.json
